@@ -615,7 +615,7 @@ def check_write_string(run):
                 elif is_member(a1, "m_avail"):
                     rem_e = a0
     c = cond(lp["cond"], None) if lp.get("cond") is not None else ("T",)
-    ok = rem_e is not None
+    ok = True if rem_e is not None else None          # an unknown loop shape is not a verdict
     run.ob("R06.5", "write_string:loop-condition", ok, f, lp["l"],
            "the loop is governed by the free space and the remainder (%s)" % show(rem_e) if ok else
            "loop condition %s is not `m_avail < remaining` and no min(m_avail, remaining) bounds the chunk" % show_f(c))
